@@ -13,7 +13,7 @@ namespace LW.Driver.IsoOps
 open LW LW.Canon
 
 def isIsoOp (op : String) : Bool :=
-  ["cflistdec", "cmddec", "rawcrypt", "rawja", "jsonpl", "alias_dec", "alias_prop", "alias_data", "alias_app", "alias_enc",
+  ["cflistdec", "cmddec", "rawcrypt", "rawja", "jsonpl", "subdec", "alias_dec", "alias_prop", "alias_data", "alias_app", "alias_enc",
    "guardfrm", "guardfopts", "inspect", "reuse_phy", "reuse_macpl", "reuse_ja", "reuse_cfl", "reuse_app", "reuse_apppl", "bandiso"].contains op
 
 def run {α} (args : List String) (p : P α) (k : α → String) : String :=
@@ -56,6 +56,7 @@ def isoQuery (E : BlockCipher) (reg : Registry) (op : String) (args : List Strin
       | .ok p => (match p.decryptJA E k with | .ok q => "ok " ++ fmtFrame q | .err => "ok ja-ERR" | .panic => "PANIC")
       | .err => "ERR" | .panic => "PANIC"
   | "jsonpl" => "ok done"
+  | "subdec" => "ok done"   -- implementation-only: sub-structure decoders called directly; judged by PANIC / HANG
   | "alias_dec" => run args hex fun b => match PHY.dec b with | .ok _ => "ok same" | .err => "ERR" | .panic => "PANIC"
   | "alias_prop" | "alias_data" => "ok same"
   | "alias_app" => run args (do let p ← AppOps.pkg; let u ← boolean; let b ← hex; pure (p, u, b)) fun (p, u, b) =>
